@@ -51,7 +51,7 @@ func (cr *cursor) ruleLB30(breakOp *breakOpportunity) {
 		*breakOp = breakProhibited
 	}
 	// [CP-[\p{ea=F}\p{ea=W}\p{ea=H}]] × (AL | HL | NU)
-	if cr.prevLine == ucd.BreakCP && !unicode.Is(ucd.LargeEastAsian, cr.prev) &&
+	if cr.prevLine == ucd.BreakCP && !cr.isPrevLineLargeEastAsian &&
 		(cr.line == ucd.BreakAL || cr.line == ucd.BreakHL || cr.line == ucd.BreakNU) {
 		*breakOp = breakProhibited
 	}
@@ -444,12 +444,14 @@ func (cr *cursor) endIteration(isStart bool) {
 		if isStart || isLB10 { // Rule LB10
 			cr.prevLine = ucd.BreakAL
 			cr.isPrevLineExtPictCn = false
+			cr.isPrevLineLargeEastAsian = false
 		} // else rule LB9 : ignore the rune for prevLine and prevPrevLine
 
 	} else { // regular update
 		cr.prevPrevLine = cr.prevLine
 		cr.prevLine = cr.line
 		cr.isPrevLineExtPictCn = cr.isExtentedPic && ucd.LookupType(cr.r) == nil
+		cr.isPrevLineLargeEastAsian = unicode.Is(ucd.LargeEastAsian, cr.r)
 	}
 
 	// keep track of the rune before the spaces
